@@ -11,3 +11,55 @@ def register(claim) -> None:
         "Trusts contextvars token semantics and Python's with/async-with protocol. Does not decide which exception object wins when "
         "a cleanup step itself fails.",
     )
+    claim(
+        "C06",
+        "CFG must-pass / ordering queries + who-may-bind scan of the task-group ContextVar + argument forwarding",
+        "Decides the structural clauses behind structured concurrency: spawn routing (group vs detached fallback only on LookupError), the "
+        "asyncio.TaskGroup exit awaited on every path of the scope exit with the body's exception forwarded (so children are cancelled, not "
+        "awaited forever), the group entered before it is published, only __aenter__ binding it. Obligations C06.1-C06.6.",
+        "Trusts asyncio.TaskGroup.__aexit__ to wait for / cancel its members and to terminate; does not explore schedules.",
+    )
+    claim(
+        "C07",
+        "exception-handler classification over all handlers (effective caught sets) + abstract evaluation of the cancellation guards",
+        "Decides that no handler in the package that can catch CancelledError swallows, masks or converts it (all 25+ handlers classified by "
+        "CFG exit kind), that check_cancellation raises exactly for cancelling() > 0 (guards evaluated for cancelling() in {0,1,2}, with "
+        "Task.cancelled()/done() known constant-False for the running task), that ctx.cancel cancels the current task, and that the body's "
+        "exception reaches TaskGroup.__aexit__. Obligations C07.1-C07.4.",
+        "Trusts asyncio cancellation semantics (API_FACT 1); user code catching CancelledError is outside the property.",
+    )
+    claim(
+        "C09",
+        "single-site who-may-resolve scan + CFG dominance under abstract scenarios + inter-procedural assert preconditions",
+        "Decides the termination-detection invariant: one resolution site of the completion future guarded by finished && all nested "
+        "completed, re-evaluated on own finish and on every nested completion (upward notification), callee-assert preconditions established "
+        "by every caller, no registration under a completed parent, time frozen after completion. Obligations C09.1-C09.9.",
+        "Trusts Future single-resolution and the loop eventually running done-callbacks (liveness of scheduling is not analysed).",
+    )
+    claim(
+        "C16",
+        "CFG must-pass with exceptional edges over the three callback closures + value-origin analysis",
+        "Decides that the timeout wrapper registers all three callbacks before its first await, that the completion callback resolves the "
+        "result future on every path including every exception Task.result() can raise (BaseException / cancelled), that the timer is "
+        "cancelled, that the result callback cancels the task unconditionally and the timer callback sets TimeoutError only on a pending "
+        "future. Obligations C16.1-C16.6.",
+        "Deadline precision (wall clock) is not decided; loop.call_later and done-callback delivery are trusted.",
+    )
+    claim(
+        "C17",
+        "who-may-mutate table on the deque + CFG path counting (linearity) + scenario-pruned reachability per queue state",
+        "All AsyncQueue methods but __anext__ are synchronous (atomic on the loop) and __anext__ has one suspension point, so structural "
+        "obligations cover every interleaving with a single consumer: FIFO operation table, exactly-one delivery of `element` and one extend "
+        "per enqueue path, finished-guard before any mutation, receive ladder buffer -> reason -> wait, finish-once, and re-buffering of an "
+        "element handed to a receive that is cancelled before waking. Obligations C17.1-C17.6.",
+        "Single consumer (documented precondition). Trusts deque and Future semantics (API_FACT 8).",
+    )
+    claim(
+        "C20",
+        "all-paths return/raise analysis of the metaclass and dunder hooks + package-wide identity-comparison scan + reduce-protocol table",
+        "Decides essentially the whole property: metaclass __call__ returns the cached instance on all paths, copy/deepcopy/pickle are routed "
+        "to the singleton through __reduce__ (API_FACT 3), __bool__/__eq__/attribute hooks have the required all-paths behaviour, every "
+        "comparison with MISSING in the package is by identity, predicates and the Missing validator evaluated under both scenarios, single "
+        "instantiation site. Obligations C20.1-C20.5.",
+        "Trusts the copy/pickle protocol description of CPython 3.12.",
+    )
